@@ -84,9 +84,15 @@ class TartifletteError(Exception):
         except (AttributeError, TypeError):
             pass
 
+        # The error may outlive the response (cached validation errors): each
+        # response gets its own path list, as it gets its own extensions
+        computed_path = path or self.path
+        if isinstance(computed_path, list):
+            computed_path = list(computed_path)
+
         errors = {
             "message": self.user_message or self.message,
-            "path": path or self.path,
+            "path": computed_path,
             "locations": computed_locations,
         }
 
